@@ -202,3 +202,59 @@ func verifHarness_C12_close(scenario int) {
 	verifAssert(!blocked, "C12/write-frame-after-close-returns")
 	verifReach("C12/close")
 }
+
+// C10 (one schedule): the whole channel (run + reader + writer goroutines) over a finite stream, with the harness
+// as the application taking events one at a time from the unbuffered event channel: open first, one event per
+// item in arrival order, then exactly one close event carrying the transport's error, then nothing; every
+// goroutine of the channel has ended.
+func verifHarness_C10_consumer(keyed int, chunk int) {
+	n := verifBareNode(V2, 1, 1)
+	var kb []byte
+	if keyed == 1 {
+		n.InKey, kb = verifKey()
+	}
+	ts := verifNondetU64()
+	verifAssume(ts < 1<<48)
+	var stream []byte
+	stream = append(stream, verifValidFrame(20, kb, ts)...)
+	junk := verifNondetU8()
+	verifAssume(junk != 0xFE && junk != 0xFD)
+	stream = append(stream, junk)
+	stream = append(stream, verifValidFrame(21, kb, ts)...)
+	stream = append(stream, verifValidFrame(22, kb, ts)...)
+	var chunks []int
+	if chunk > 0 {
+		chunks = []int{chunk}
+	}
+	rwc := &verifRWC{rd: frame.VerifChunkReader(stream, chunks)}
+	ch := &Channel{node: n, rwc: rwc}
+	verifAssert(ch.initialize() == nil, "C10/C/channel-init")
+	verifChanSink(n.chCloseChannel)
+	n.channels[ch] = struct{}{}
+	ch.running = true
+	n.wg.Add(1)
+	verifRunGoroutines(func() { ch.run() })
+	want := []int{0, 1, 2, 1, 1, 3} // 0 open, 1 frame, 2 parse error, 3 close
+	seqs := []byte{0, 20, 0, 21, 22, 0}
+	for i := 0; i < len(want); i++ {
+		evt := <-n.chEvent // the application receives: the goroutines run on until an event is handed over
+		switch e := evt.(type) {
+		case *EventChannelOpen:
+			verifAssert(want[i] == 0 && e.Channel == ch, "C10/C/open-first")
+		case *EventFrame:
+			verifAssert(want[i] == 1 && e.Channel == ch && e.Frame.GetSequenceNumber() == seqs[i], "C10/C/frames-lossless-in-order")
+		case *EventParseError:
+			verifAssert(want[i] == 2 && e.Channel == ch, "C10/C/rejected-input-is-a-parse-error")
+		case *EventChannelClose:
+			verifAssert(want[i] == 3 && e.Channel == ch, "C10/C/close-last")
+			verifAssert(e.Error == io.EOF, "C10/C/close-carries-the-cause")
+		default:
+			verifAssert(false, "C10/C/unexpected-event")
+		}
+	}
+	stillBlocked := verifRunGoroutines(nil)
+	verifAssert(!stillBlocked && verifBlockedGoroutines() == 0, "C10/C/channel-goroutines-ended")
+	verifAssert(len(n.chEvent) == 0, "C10/C/nothing-after-close")
+	verifAssert(rwc.closed >= 1, "C10/C/transport-closed")
+	verifReach("C10/C")
+}
